@@ -264,8 +264,8 @@ func plainASCII(b []byte) bool {
 }
 
 func modelable(content []byte) bool {
-	// the model is ASCII-only for tag characters: a term containing a non-ASCII letter or digit
-	// is accepted by Go and rejected by the model.
+	// the model knows the letters and digits below U+0250 (generated table): a term containing a
+	// letter or digit at or above U+0250 is accepted by Go and rejected by the model.
 	for _, l := range headerLines(content) {
 		opts, ok := plusBuildArgs(l)
 		if !ok {
@@ -274,7 +274,7 @@ func modelable(content []byte) bool {
 		for _, o := range opts {
 			for len(o) > 0 {
 				r, n := utf8.DecodeRuneInString(o)
-				if r >= 0x80 && r != utf8.RuneError && (unicode.IsLetter(r) || unicode.IsDigit(r)) {
+				if r >= 0x250 && r != utf8.RuneError && (unicode.IsLetter(r) || unicode.IsDigit(r)) {
 					return false
 				}
 				o = o[n:]
@@ -371,7 +371,7 @@ func (rn *runner) caseSB(content []byte, tags []string, src string) {
 		res.Sample(map[string]any{"fn": "ShouldBuild", "content": string(content), "tags": tags, "impl": impl})
 	}
 	if !modelable(content) {
-		res.Count("sb:not-modelled(non-ASCII tag letters)")
+		res.Count("sb:not-modelled(tag letters >= U+0250)")
 		return
 	}
 	tg := hexList(tags)
@@ -393,8 +393,8 @@ var handNames = []string{"x_linux.go", "linux.go", "_linux.go", "x_linux", ".x_l
 	"x_linux_arm.s", "a_b_c_d_windows_386_test.go", "x_LINUX.go", "x_linux_test", "_test.go", "test.go", "x_test.go", "_.go", "",
 	"x_darwin_arm64.go", "x_arm64_darwin.go", "x_plan9.go", "x_js_wasm.go", "x_solaris.go", "x_zos_s390x_test.go"}
 
-var tagVocab = []string{"linux", "android", "windows", "arm", "amd64", "386", "foo", "bar", "ignore", "a_b", "x.y", "darwin"}
-var badTerms = []string{"!!foo", "!", "", "a-b", "!a-b", "a!b", "foo!", "\xff", "!\xff", "é", "!é", "a b", "+build", "*", "!*", "a/b"}
+var tagVocab = []string{"linux", "android", "windows", "arm", "amd64", "386", "foo", "bar", "ignore", "a_b", "x.y", "darwin", "é", "ßü9"}
+var badTerms = []string{"!!foo", "!", "", "a-b", "!a-b", "a!b", "foo!", "\xff", "!\xff", "λ", "!λ", "é\xff", "\xc3", "a b", "+build", "*", "!*", "a/b"}
 
 func genTerm(r *common.RNG) string {
 	switch r.Intn(10) {
@@ -497,7 +497,9 @@ func runC19(rn *runner) {
 	f, res := rn.f, rn.res
 	if f.Replay != "" {
 		rp, err := common.LoadReplay(f.Replay)
-		if err == nil {
+		if err == nil && strings.HasPrefix(rp.Violation.Input["fn"], "Scan") {
+			rn.replayScan(rp.Violation.Input)
+		} else if err == nil {
 			rn.replayC19(rp.Violation.Input)
 		} else {
 			res.Notes = append(res.Notes, "cannot load replay: "+err.Error())
@@ -591,8 +593,14 @@ func runC19(rn *runner) {
 		}
 		rn.caseSB(b, genTagSet(r), "random")
 	}
+	// the consumer: ScanDir's choice of files on generated directories
+	nDirs := 150
+	if f.Tier == "thorough" {
+		nDirs = 3000
+	}
+	runScan(rn, nDirs)
 	res.Exhaustive = false
-	res.Rule = fmt.Sprintf("corpus; MatchFile: every name of 1..4 '_'-joined segments over %q (+.go) (%d names), hand-picked names and every documented OS/arch token, each under %d tag sets; ShouldBuild: %d generated leading blocks (valid, negated and malformed terms, blank-line placement, non-+build comments, /* */ blocks, CR, NBSP) under random tag sets, all single/paired terms of the vocabulary under %d tag sets, %d random byte strings over a +build alphabet. Non-trivial: a name containing '_' / a content with a +build line inside the header. Oracles: documented rule re-stated in Go (all cases), go/build/constraint and go/build.Context.MatchFile on their common domain (no tags[\"*\"], no unix/cgo/ios/illumos/go1.x/wasip1 tags, no negated malformed term, no malformed term when tags[\"ignore\"], no //go:build, base name not starting with '_' or '.').",
+	res.Rule = fmt.Sprintf("corpus; MatchFile: every name of 1..4 '_'-joined segments over %q (+.go) (%d names), hand-picked names and every documented OS/arch token, each under %d tag sets; ShouldBuild: %d generated leading blocks (valid, negated and malformed terms, blank-line placement, non-+build comments, /* */ blocks, CR, NBSP) under random tag sets, all single/paired terms of the vocabulary under %d tag sets, %d random byte strings over a +build alphabet. Non-trivial: a name containing '_' / a content with a +build line inside the header. Oracles: documented rule re-stated in Go (all cases), go/build/constraint and go/build.Context.MatchFile on their common domain (no tags[\"*\"], no unix/cgo/ios/illumos/go1.x/wasip1 tags, no negated malformed term, no malformed term when tags[\"ignore\"], no //go:build, base name not starting with '_' or '.'). Consumers: "+scanRule,
 		nameSegs, count, len(nameTagSets), nBlocks, len(small), nRand)
 }
 
